@@ -8,6 +8,7 @@ mod ops_chain;
 mod ops_codec;
 mod ops_coord;
 mod ops_gossip;
+mod ops_graph;
 mod ops_locks;
 mod ops_misc;
 mod ops_parser;
@@ -20,6 +21,9 @@ mod ops_wal;
 fn dispatch(req: &Value) -> Value {
     let op = req["op"].as_str().unwrap_or("");
     if let Some(v) = ops_codec::handle(op, req) {
+        return v;
+    }
+    if let Some(v) = ops_graph::handle(op, req) {
         return v;
     }
     if let Some(v) = ops_gossip::handle(op, req) {
